@@ -1,6 +1,8 @@
 // drv_misc.cpp — C17 (capacity limits: at L-1, L, L+1, far beyond; alone and in pairs) and the exhaustive
 // (type, dimensions, size) table of the typed parameter setters (C09 part ii).
 #include "probes.h"
+#include "refc3d.h"
+#include "c03.h"
 #include <sys/mman.h>
 #include <sys/wait.h>
 #include <chrono>
@@ -193,6 +195,53 @@ static int runSetterTable(const std::string& tier, const std::string& out, const
     return 0;
 }
 
+std::string vf::takeSanitizerReport() { return std::string(); }
+
+// ---- residue sweep (C03 / C01): the parameter-section length takes every residue modulo 512 -----------------------
+// For each base object, filler parameters grow the section one byte at a time over 1024 consecutive lengths; every object is saved,
+// decoded by the reference decoder (all C03 clauses), reloaded by the library and compared (C01 projection).
+static void residueBase(C3D& c, const std::string& base) {
+    if (base == "blank") return;
+    if (base == "points") { c.point("A"); c.point("B"); c.parameter("POINT", mkRate(100.f)); Shape sh; sh.pts = {"A", "B"}; Frame f = buildFrame(sh, 0); f.points_nonConst().point_nonConst(0).x(123.456f); c.frame(f); c.frame(buildFrame(sh, 2)); return; }
+    if (base == "analogs") { c.analog("a"); c.parameter("POINT", mkRate(50.f)); c.parameter("ANALOG", mkRate(100.f)); Shape sh; sh.chans = {"a"}; sh.nsub = 2; c.frame(buildFrame(sh, 1)); return; }
+    if (base == "both") { c.point("P"); c.analog("a"); c.analog("b"); c.parameter("POINT", mkRate(100.f)); c.parameter("ANALOG", mkRate(100.f)); Shape sh; sh.pts = {"P"}; sh.chans = {"a", "b"}; sh.nsub = 1; c.frame(buildFrame(sh, 1)); c.frame(buildFrame(sh, 0)); c.lockGroup("ANALOG"); return; }
+}
+static int runResidue(const std::string& tier, const std::string& scratch, const std::string& out, const std::string& one, int workers) {
+    bool thorough = tier == "thorough"; std::vector<std::string> bases = thorough ? std::vector<std::string>{"blank", "points", "analogs", "both"} : std::vector<std::string>{"points", "both"};
+    struct Case { std::string base; int len; }; std::vector<Case> cases; for (auto& b : bases) for (int L = 0; L < 1024; ++L) cases.push_back({b, L});
+    auto text = [](const Case& c) { return c.base + ":fill=" + std::to_string(c.len); };
+    auto runOne = [&](const Case& cs, const std::string& dir, Sink& sink, size_t& secLen) {
+        C3D c; residueBase(c, cs.base); int rest = cs.len, k = 0;
+        while (rest > 0 || k == 0) { int n = std::min(rest, 255); Param p("F" + std::to_string(k), std::string((size_t)std::min(n, 100), 'd')); p.set(std::vector<std::string>() = {std::string((size_t)(n - std::min(n, 100)), 'v')}); c.parameter("FILLER", p); rest -= n; k++; if (cs.len == 0) break; }
+        WSnap s; s.o = snapObject(c); std::string p = dir + "/residue.c3d", what; Outcome oc = guarded([&] { c.write(p); }, &what);
+        if (oc != OK) { V(sink, "C03", std::string("save_throws/") + outcomeName(oc), what); return; }
+        std::string bytes; readAll(p, bytes); checkSavedFile(s.o, bytes, sink, true);
+        ref::File F; if (ref::decode(bytes, F, false).empty()) secLen = F.termOffset - F.paramOffset;
+        std::unique_ptr<C3D> L; oc = guarded([&] { L.reset(new C3D(p)); }, &what);
+        if (oc != OK) { V(sink, "C01", std::string("roundtrip/reload_throws/") + outcomeName(oc) + "/residue", what); return; }
+        std::vector<std::string> diffs; compareContent(s.o, snapObject(*L), diffs); for (auto& d : diffs) V(sink, "C01", "roundtrip/" + d, "saved and reloaded object differ in " + d);
+    };
+    if (!one.empty()) { for (auto& cs : cases) if (text(cs) == one) { Sink sink; size_t sl = 0; runOne(cs, scratch, sink, sl); printf("%s: records end %zu bytes into the section (residue %zu)\n", one.c_str(), sl, sl % 512); for (auto& v : sink) printf("  VIOLATION %s %s :: %s\n", v.prop.c_str(), v.sig.c_str(), v.detail.c_str()); return sink.empty() ? 0 : 1; } printf("case not found\n"); return 2; }
+    std::vector<pid_t> pids;
+    for (int wi = 0; wi < workers; ++wi) { fflush(stdout); pid_t p = fork(); if (p == 0) { std::string dir = scratch + "/w" + std::to_string(wi); mkdir(dir.c_str(), 0755); FILE* fo = fopen((dir + ".res").c_str(), "w");
+            for (size_t i = (size_t)wi; i < cases.size(); i += (size_t)workers) { Sink sink; size_t sl = 0; fprintf(fo, "S\t%zu\n", i); fflush(fo); runOne(cases[i], dir, sink, sl); fprintf(fo, "D\t%zu\t%zu\n", i, sl); for (auto& v : sink) { std::string d = v.detail; for (auto& ch : d) if (ch == '\t' || ch == '\n') ch = ' '; fprintf(fo, "V\t%zu\t%s\t%s\t%s\n", i, v.prop.c_str(), v.sig.c_str(), d.c_str()); } fflush(fo); }
+            fclose(fo); _exit(0); } pids.push_back(p); }
+    for (auto p : pids) { int st; waitpid(p, &st, 0); }
+    std::set<size_t> residues; size_t done = 0; struct VR { std::string prop, sig, cs, detail; size_t count; }; std::map<std::string, VR> viol; std::vector<std::string> crashed;
+    for (int wi = 0; wi < workers; ++wi) { std::ifstream fr(scratch + "/w" + std::to_string(wi) + ".res"); std::string line; long started = -1;
+        while (std::getline(fr, line)) { std::vector<std::string> f; size_t a = 0; while (true) { size_t b = line.find('\t', a); f.push_back(line.substr(a, b == std::string::npos ? std::string::npos : b - a)); if (b == std::string::npos) break; a = b + 1; }
+            if (f[0] == "S") started = atol(f[1].c_str()); else if (f[0] == "D") { started = -1; done++; residues.insert((size_t)atol(f[2].c_str()) % 512); }
+            else if (f[0] == "V" && f.size() >= 5) { std::string key = f[2] + "|" + f[3]; auto it = viol.find(key); if (it == viol.end()) viol[key] = {f[2], f[3], text(cases[(size_t)atol(f[1].c_str())]), f[4], 1}; else it->second.count++; } }
+        if (started >= 0) crashed.push_back(text(cases[(size_t)started])); }
+    auto jstr = [](const std::string& s) { std::string o = "\""; for (unsigned char ch : s) { if (ch == '"' || ch == '\\') { o += '\\'; o += (char)ch; } else if (ch < 32 || ch > 126) o += '?'; else o += (char)ch; } return o + "\""; };
+    FILE* f = out.empty() ? stdout : fopen(out.c_str(), "w");
+    fprintf(f, "{\n \"tier\": %s, \"cases\": %zu, \"done\": %zu, \"bases\": %zu, \"distinct_residues\": %zu,\n \"samples\": [%s, %s],\n \"crashed\": [", jstr(tier).c_str(), cases.size(), done, bases.size(), residues.size(), jstr(text(cases[0])).c_str(), jstr(text(cases[cases.size() / 2])).c_str());
+    for (size_t i = 0; i < crashed.size(); ++i) fprintf(f, "%s%s", i ? ", " : "", jstr(crashed[i]).c_str());
+    fprintf(f, "],\n \"violations\": [\n"); { bool first = true; for (auto& kv : viol) { fprintf(f, "%s  {\"prop\": %s, \"sig\": %s, \"case\": %s, \"detail\": %s, \"count\": %zu}", first ? "" : ",\n", jstr(kv.second.prop).c_str(), jstr(kv.second.sig).c_str(), jstr(kv.second.cs).c_str(), jstr(kv.second.detail).c_str(), kv.second.count); first = false; } }
+    fprintf(f, "\n ]\n}\n"); if (f != stdout) fclose(f);
+    return 0;
+}
+
 int main(int argc, char** argv) {
     std::string mode = "c17", tier = "quick", scratch, out, one, transcript; int workers = 16;
     for (int i = 1; i < argc; ++i) { std::string a = argv[i]; auto nxt = [&]() { return std::string(argv[++i]); };
@@ -200,5 +249,6 @@ int main(int argc, char** argv) {
     if (scratch.empty()) scratch = "/dev/shm/ezc3d-verif-misc." + std::to_string(getpid()); mkdir(scratch.c_str(), 0755);
     if (mode == "c17") return runC17(tier, scratch, out, one, workers);
     if (mode == "setters") return runSetterTable(tier, out, transcript);
+    if (mode == "residue") return runResidue(tier, scratch, out, one, workers);
     return 2;
 }
